@@ -45,7 +45,7 @@ SPECS = {
                    qkinds=[("Signal", None), ("Port", "IN"), ("Variable", None)]), 4),
     "t4arr": (dict(widths=(2,), arr_elems=_ARR3, arr_counts=(1, 2), upto_widths=(), bare=False,
                    qkinds=[("Signal", None), ("Port", "OUT"), ("Variable", None)]), 4),
-    "troutes": (dict(widths=(1, 2), arr_elems=[], arr_counts=(), upto_widths=(), route_widths=(1, 2), slice_widths=(1, 2),
+    "troutes": (dict(widths=(1, 2), arr_elems=[], arr_counts=(), upto_widths=(), route_widths=(1, 2), slice_widths=(2,),
                      qkinds=[("Signal", None), ("Variable", None), ("Temporary", None), ("Port", "IN"), ("Port", "INOUT")]), 3),
 }
 for _n in range(1, 7):
